@@ -231,6 +231,10 @@ class CellCycleController:
     def release_all_resources(self, ctx: OperationContext) -> None:
         """Release all resources held by an operation."""
         for resource_id in list(ctx.acquired_resources.keys()):
+            lock = ctx.acquired_resources[resource_id]
+            if lock.owner == ctx.operation_id:
+                # The operation is ending: drop reentrant holds so one release frees the lock
+                lock.hold_count = 1
             self.release_resource(ctx, resource_id)
 
     def check_deadlock(self) -> Optional[DeadlockInfo]:
